@@ -91,7 +91,7 @@ class AssemblyManager(object):
                 if ref not in references:
                     references.append(ref)
                 ref_index = references.index(ref) + 1
-                feature.qualifiers["citation"][i] = "{}".format(ref_index)
+                feature.qualifiers["citation"][i] = "[{}]".format(ref_index)
 
     def _annotate_assembly(self, assembly):
         assembly.id = self.id
